@@ -35,9 +35,29 @@ def _sig(fn):
         if any(x in ("__lazy", "lazy", "thread_local", "$crate::__lazy", "koto_memory::__lazy") or x.endswith("lazy") for x in m):
             continue   # the lazily initialised constant: thread_local! vs LazyLock, selected inside koto_memory's macro
         calls[_norm(c.short)] += 1
+    # branches decided by a compile-time constant (`cfg!(feature = ..)` expands to true / false)
+    const_assign = {}
+    for b in fn.blocks:
+        if b.cleanup:
+            continue
+        for st in b.stmts:
+            if st[0] == "a" and not st[1][1] and st[2][0] == "use" and st[2][1][0] == "k" and "i" in st[2][1][1]:
+                const_assign.setdefault(st[1][0], []).append(st[2][1][1]["i"])
+    for b in fn.blocks:
+        if b.cleanup or b.term[0] != "switch":
+            continue
+        o = b.term[1]
+        if o[0] == "k":
+            calls[("const-branch", o[1].get("i"))] += 1
+        else:
+            l = op_base(o)
+            vals = const_assign.get(l)
+            if vals is not None and len(vals) == 1 and not any(
+                    st[0] == "a" and st[1][0] == l and st[2][0] != "use" for bb in fn.blocks for st in bb.stmts):
+                calls[("const-branch", vals[0])] += 1
     nsw = sum(1 for b in fn.blocks if not b.cleanup and b.term[0] == "switch")
     nret = sum(1 for b in fn.blocks if not b.cleanup and b.term[0] == "ret")
-    return (tuple(sorted(calls.items())), nsw, nret, fn.argc)
+    return (tuple(sorted(calls.items(), key=str)), nsw, nret, fn.argc)
 
 
 def rule_build_diff(cx, tier):
